@@ -379,3 +379,30 @@ func VerifH_C20_slice_results_independent() {
 	}
 	_ = ref
 }
+
+// VerifH_C20_slice_push_spread_fresh: Push(xs...) with a caller-owned slice (spare capacity
+// or not) onto a Slice that has never been written, then the caller changes xs or appends to
+// it: the container's contents do not change (it never shares storage with the caller).
+func VerifH_C20_slice_push_spread_fresh() {
+	s := NewSlice[int]()
+	if verif.Bool() {
+		s = &Slice[int]{}
+	}
+	n := 1 + verif.Choose(3)
+	xs := make([]int, n, n+verif.Choose(2))
+	for i := range xs {
+		xs[i] = 10 + i
+	}
+	s.Push(xs...)
+	xs[0] = 99
+	xs = append(xs, 77)
+	s.Push(5)
+	verif.Assert(s.Len() == n+1, "length")
+	for i := 0; i < n; i++ {
+		v, err := s.Get(i)
+		verif.Assert(err == nil && v == 10+i, "the container's elements are unaffected by what the caller does to its own slice")
+	}
+	v, err := s.Get(n)
+	verif.Assert(err == nil && v == 5, "and a later Push lands after them")
+	verif.Assert(xs[n] == 77, "nor does the container write into the caller's spare capacity")
+}
